@@ -250,6 +250,19 @@ class Pr:
             return self.leaves[c[2]][1], self.leaves[c[2]][0], c[1] == 'is', c[2]
         return None
 
+    def tr_nat(self, t):
+        """a natural-number expression: len(x), literals, +"""
+        t = ident(t, self.fname, '')
+        if t in self.leaves and self.leaves[t][0] == 'nat':
+            return self.leaves[t][1]
+        if t[0] == 'lit' and t[1].isdigit():
+            return t[1]
+        if t[0] == 'call' and t[1] == 'len':
+            return self.tr(t)[1]
+        if t[0] == 'bin' and t[1] == '+':
+            return f"({self.tr_nat(t[2])} + {self.tr_nat(t[3])})"
+        self.fail(t, why='natural-number expression')
+
     def tr(self, t):
         t0 = ident(t, self.fname, '')
         if t0 in self.leaves:
@@ -285,6 +298,24 @@ class Pr:
             if k == 'arr':
                 return ('col', p)
             self.fail(t)
+        if t[0] == 'sub' and len(t[2]) == 1 and t[2][0][0] == 'sl' and t[2][0][1] is None and t[2][0][2] is not None:
+            # `x[:-i - 1]` for a loop variable i >= 0: the first len(x) - (i + 1) entries
+            hi = t[2][0][2]
+            if hi[0] == 'bin' and hi[1] == '-' and hi[2][0] == 'neg' and self.leaves.get(hi[2][1], ('',))[0] == 'nat' \
+                    and hi[3][0] == 'lit' and hi[3][1].isdigit() and int(hi[3][1]) >= 1:
+                k, p = self.tr(t[1])
+                if k == 'arr':
+                    x = self.arr_text(p)
+                    return ('arr', ew_leaf(f"({x}.take ({x}.length - ({self.leaves[hi[2][1]][1]} + {hi[3][1]})))"))
+            self.fail(t, why='slice')
+        if t[0] == 'sub' and len(t[2]) == 1 and t[2][0][0] == 'i' and self.leaves.get(t[2][0][1], ('',))[0] == 'nat' \
+                and self.leaves.get(('inrange', t[2][0][1])) is not None:
+            # `x[i]` for a loop variable `i in range(len(<arr>))` and an element-wise expression x over exactly that array: no IndexError
+            k, p = self.tr(t[1])
+            if k == 'arr' and p[0] == (self.leaves[('inrange', t[2][0][1])],):
+                self.ints.add(0)
+                return ('scal', ew_body(p[1], [f"({p[0][0]}.getD {self.leaves[t[2][0][1]][1]} 0)"]))
+            self.fail(t, why='indexing')
         if t[0] == 'ite':
             nt = self.is_none_test(t[1])
             if nt:
@@ -336,6 +367,18 @@ class Pr:
                 if d[0] == 'scal':
                     return self.rowop(f"Np.cumtrapz {d[1]}", self.tr(args[0]), t)
                 self.fail(t)
+            if name in ('np.sqrt', 'np.exp', 'np.sin') and len(args) == 1 and not kws:
+                self.uses.add(name[3:])
+                return self.unop(lambda a, f=name[3:]: f"({f} {a})", self.tr(args[0]), t)
+            if name == 'len' and len(args) == 1 and not kws:
+                x = self.tr(args[0])
+                if x[0] == 'arr':
+                    return ('nat', f"{self.arr_text(x[1])}.length")
+                self.fail(t)
+            if name == 'np.arange' and len(args) == 1 and not kws:
+                n = self.tr_nat(args[0])
+                self.uses.add('natcast')
+                return ('arr', ew_leaf(f"((List.range {n}).map (fun (k : Nat) => (k : α)))"))
             if name == 'np.arange' and len(args) == 3 and not kws and all(a[0] == 'lit' for a in args):
                 self.uses.add('arange')
                 return ('arr', ew_leaf(f"(arange {' '.join(self.lit(a[1]) for a in args)})"))
@@ -747,6 +790,28 @@ def sir_fn(src, mod):
     cd = {k: const_default(v, src, pyname, callee.lineno) for k, v in cdef.items()}
     if set(cd) != {'start', 'end'} or cd['start'][0] != 'lit' or cd['end'][0] != 'lit':
         raise Untranslatable(pyname, callee.lineno, "defaults of calc_significant_duration")
+    # what `calc_significant_duration` returns: it must forward to calc_sig_dur_vals(motion, dt, start=start, end=end[, se=<bool>])
+    cb = [s_ for s_ in body_of(callee) if not (isinstance(s_, ast.Expr) and isinstance(s_.value, ast.Call) and isinstance(s_.value.func, ast.Name)
+                                               and s_.value.func.id == 'deprecation')]
+    fwd = cb[0].value if len(cb) == 1 and isinstance(cb[0], ast.Return) and isinstance(cb[0].value, ast.Call) else None
+    if fwd is None or not (isinstance(fwd.func, ast.Name) and fwd.func.id == 'calc_sig_dur_vals' and [getattr(a, 'id', None) for a in fwd.args] == ['motion', 'dt']):
+        raise Untranslatable('calc_significant_duration', callee.lineno, "not a forwarding to calc_sig_dur_vals(motion, dt, …)")
+    fkw = {k_.arg: k_.value for k_ in fwd.keywords}
+    if set(fkw) - {'start', 'end', 'se'} or getattr(fkw.get('start'), 'id', None) != 'start' or getattr(fkw.get('end'), 'id', None) != 'end':
+        raise Untranslatable('calc_significant_duration', callee.lineno, "keywords of the forwarding call")
+    sdv = find_all(mod, 'calc_sig_dur_vals')[-1]
+    vnames, vdef = signature(sdv, 'calc_sig_dur_vals')
+    if vnames != ['motion', 'dt', 'start', 'end', 'se']:
+        raise Untranslatable('calc_sig_dur_vals', sdv.lineno, f"parameters {vnames}")
+    se = fkw['se'] if 'se' in fkw else vdef['se']
+    if not (isinstance(se, ast.Constant) and isinstance(se.value, bool)):
+        raise Untranslatable('calc_sig_dur_vals', sdv.lineno, "`se` is not a Boolean literal")
+    vb = body_of(sdv)
+    if not (len(vb) >= 2 and isinstance(vb[-2], ast.If) and isinstance(vb[-2].test, ast.Name) and vb[-2].test.id == 'se' and not vb[-2].orelse
+            and len(vb[-2].body) == 1 and isinstance(vb[-2].body[0], ast.Return) and isinstance(vb[-2].body[0].value, ast.Tuple)
+            and len(vb[-2].body[0].value.elts) == 2 and isinstance(vb[-1], ast.Return) and not isinstance(vb[-1].value, ast.Tuple)):
+        raise Untranslatable('calc_sig_dur_vals', sdv.lineno, "expected `if se: return a, b` followed by `return <scalar>`")
+    pair = se.value                       # True: a pair comes back; False: ONE float comes back and the unpacking raises TypeError
     sy = S2(pyname, src, names, objs={'acc_sig'})
     sy.effectful = {'calc_significant_duration'}
     rt, rline = walk(sy, fn)
@@ -767,11 +832,14 @@ def sir_fn(src, mod):
         raise Untranslatable(pyname, rline, "returned value is not a scalar")
     body = ["  match arias_intensity with", "  | none => .error .AttributeError", "  | some ai =>",
             f"  match sigDur values dt {pr.lit(cd['start'][1])} {pr.lit(cd['end'][1])} with", "  | .error e => .error e", "  | .ok r0 =>",
-            f"  .ok {tr_}"]
+            f"  .ok {tr_}" if pair else "  .error .TypeError"]
+    rty = "(α × α)" if pair else "α"
+    note = "" if pair else (" — which is called WITHOUT `se`, so ONE float (the duration) comes back and the tuple unpacking "
+                            "`a, b = <float>` raises `TypeError`")
     doc = (f"/-- `{pyname}(acc_sig)`; `arias_intensity` is the attribute `acc_sig.arias_intensity` (`none`: the object has no such attribute — "
            f"`AttributeError`, raised first), `sigDur motion dt start end` is `calc_sig_dur_vals` reached through `calc_significant_duration` "
-           f"with ITS defaults `start={cd['start'][1]}`, `end={cd['end'][1]}` -/")
-    d = ["\n".join([doc, f"def {lname} (sigDur : List α → α → α → α → Except ErrKind (α × α)) (arias_intensity : Option α) (values : List α) (dt : α) :\n    Except ErrKind α :="] + body)]
+           f"with ITS defaults `start={cd['start'][1]}`, `end={cd['end'][1]}`{note} -/")
+    d = ["\n".join([doc, f"def {lname} (sigDur : List α → α → α → α → Except ErrKind {rty}) (arias_intensity : Option α) (values : List α) (dt : α) :\n    Except ErrKind α :="] + body)]
     return d, pr
 
 
@@ -1082,4 +1150,181 @@ def gen_spec_object(repo, ns):
     return {"SpecObject.lean": file_text(ns, "SpecObject", "eqsig/single.py (AccSignal.gen_response_spectrum, generate_response_spectrum, __init__)", var, ab, defs)}
 
 
-TARGETS = [gen_spec_energy, gen_spec_object, gen_spec_im]
+# ----------------------------------------------------------------------------------------------
+# target 4: single_elastic_response (Duhamel loop), slow_response_spectra
+# ----------------------------------------------------------------------------------------------
+
+SER = 'single_elastic_response'
+
+
+def range_len(sy, it, what):
+    """`range(<n>)` -> the term of n"""
+    if not (isinstance(it, ast.Call) and isinstance(it.func, ast.Name) and it.func.id == 'range' and len(it.args) == 1 and not it.keywords):
+        sy.fail(it, 'loop range ' + what)
+    return sy.ev(it.args[0])
+
+
+def ser_fn(src, mod):
+    fn = find_all(mod, SER)[-1]
+    names, defaults = signature(fn, SER)
+    if names != ['motion', 'step', 'period', 'xi'] or defaults:
+        raise Untranslatable(SER, fn.lineno, f"parameters {names}")
+    sy = S2(SER, src, names)
+    sts = body_of(fn)
+    loops = [k for k, st in enumerate(sts) if isinstance(st, ast.For)]
+    if len(loops) != 1 or loops[0] != len(sts) - 2 or not isinstance(sts[-1], ast.Return):
+        raise Untranslatable(SER, fn.lineno, "expected: assignments, one for loop, return")
+    for st in sts[:loops[0]]:
+        if not isinstance(st, ast.Assign):
+            sy.fail(st, 'statement ' + type(st).__name__)
+        sy.assign(st)
+    loop = sts[loops[0]]
+    if loop.orelse or not isinstance(loop.target, ast.Name):
+        sy.fail(loop, 'loop shape')
+    n = range_len(sy, loop.iter, '')
+    if ident(n, SER, '') != ('call', 'len', (('param', 'motion'),), ()):
+        sy.fail(loop, 'loop bound is not len(motion)')
+    iv = loop.target.id
+    sy.env[iv] = ('loopvar', iv)
+    aug = None
+    for st in loop.body:
+        if aug is not None:
+            sy.fail(st, 'statement after the accumulation')
+        if isinstance(st, ast.Assign):
+            sy.assign(st)
+        elif isinstance(st, ast.AugAssign) and isinstance(st.op, ast.Add) and isinstance(st.target, ast.Subscript):
+            base = sy.ev(st.target.value)
+            idx = sy.index(st.target.slice)
+            if base[0] != 'alloc' or idx != (('sl', ('loopvar', iv), None),):
+                sy.fail(st, 'accumulation target is not `<zeros array>[i:]`')
+            aug = (base, sy.ev(st.value), st.lineno)
+        else:
+            sy.fail(st, 'statement in the loop')
+    if aug is None:
+        sy.fail(loop, 'no `disp[i:] += …` in the loop')
+    base, val, aline = aug
+    kind, shape, _ = sy.allocs[base[1]]
+    if kind != 'zeros' or ident(shape, SER, '') != ('call', 'len', (('param', 'motion'),), ()) or sy.writes:
+        raise Untranslatable(SER, aline, "the accumulator is not np.zeros(len(motion)) written only by the loop")
+    if sy.ev(sts[-1].value) != base:
+        sy.fail(sts[-1], 'the accumulator is not what is returned')
+    leaves = {('param', 'motion'): ('arr', 'motion'), ('param', 'step'): ('scal', 'step'), ('param', 'period'): ('scal', 'period'),
+              ('param', 'xi'): ('scal', 'xi'), ('loopvar', iv): ('nat', 'i'), ('inrange', ('loopvar', iv)): 'motion'}
+    pr = Pr(SER, leaves, None)
+    k, p = pr.tr(val)
+    if k != 'arr':
+        raise Untranslatable(SER, aline, "the added value is not a 1-D array")
+    # len(d_new) = len(disp) - i: the only 1-D source must be time[:-i-1] with len(time) = len(motion) + 1
+    srcs = p[0]
+    want = re.compile(r"^\((.*)\.take \(\1\.length - \(i \+ 1\)\)\)$")
+    mo = want.match(srcs[0]) if len(srcs) == 1 else None
+    if not mo or "List.range (motion.length + 1)" not in mo.group(1):
+        raise Untranslatable(SER, aline, "cannot show len(d_new) == len(disp) - i")
+    fpar = "".join(f"({f} : α → α) " for f in ('sqrt', 'exp', 'sin') if f in pr.uses)
+    fargs = "".join(f"{f} " for f in ('sqrt', 'exp', 'sin') if f in pr.uses)
+    pi = "(pi : α) " if 'pi' in pr.uses else ""
+    piarg = "pi " if 'pi' in pr.uses else ""
+    d = ["\n".join([f"/-- the value added by pass `i` of the loop of `{SER}`: `d_new` (entry `k` belongs to sample `i + k`) -/",
+                    f"def serDNew {pi}{fpar}(motion : List α) (step period xi : α) (i : Nat) : List α :=", f"  {strip_outer(pr.text((k, p)))}"]),
+         "\n".join([f"/-- one pass of the loop of `{SER}`: `disp[i:] += d_new` -/",
+                    f"def serStep {pi}{fpar}(motion : List α) (step period xi : α) (disp : List α) (i : Nat) : List α :=",
+                    f"  NpS.addFrom i disp (serDNew {piarg}{fargs}motion step period xi i)"]),
+         "\n".join([f"/-- `{SER}(motion, step, period, xi)`: `disp = np.zeros(len(motion))`, then `for i in range(len(motion))` the pass above;\n"
+                    f"`pi`, `sqrt`, `exp`, `sin` are `np.pi`, `np.sqrt`, `np.exp`, `np.sin`; domain: `period ≠ 0` (a Python-float zero period raises) -/",
+                    f"def singleElasticResponse {pi}{fpar}(motion : List α) (step period xi : α) : List α :=",
+                    f"  (List.range motion.length).foldl (serStep {piarg}{fargs}motion step period xi) (List.replicate motion.length 0)"])]
+    pr.ints.add(0)
+    return d, pr
+
+
+def slow_fn(src, mod):
+    pyname = 'slow_response_spectra'
+    fn = find_all(mod, pyname)[-1]
+    names, defaults = signature(fn, pyname)
+    if names != ['motion', 'step', 'periods', 'xis'] or defaults:
+        raise Untranslatable(pyname, fn.lineno, f"parameters {names}")
+    callee = callee_sig(mod, SER, ['motion', 'step', 'period', 'xi'], pyname)
+    sy = S2(pyname, src, names)
+    sts = body_of(fn)
+    loops = [k for k, st in enumerate(sts) if isinstance(st, ast.For)]
+    if len(loops) != 1 or not isinstance(sts[-1], ast.Return):
+        raise Untranslatable(pyname, fn.lineno, "expected: assignments, one for loop, assignments, return")
+    for st in sts[:loops[0]]:
+        if not isinstance(st, ast.Assign):
+            sy.fail(st, 'statement ' + type(st).__name__)
+        sy.assign(st)
+    loop = sts[loops[0]]
+    if loop.orelse or not isinstance(loop.target, ast.Name) or len(loop.body) != 1 or not isinstance(loop.body[0], ast.Assign):
+        sy.fail(loop, 'loop shape')
+    n = range_len(sy, loop.iter, '')
+    if ident(n, pyname, '') != ('call', 'len', (('param', 'periods'),), ()):
+        sy.fail(loop, 'loop bound is not len(periods)')
+    iv = loop.target.id
+    sy.env[iv] = ('loopvar', iv)
+    st = loop.body[0]
+    tg = st.targets[0]
+    if not isinstance(tg, ast.Subscript):
+        sy.fail(st, 'loop body is not `s_d[i] = …`')
+    base = sy.ev(tg.value)
+    if base[0] != 'alloc' or sy.index(tg.slice) != (('i', ('loopvar', iv)),):
+        sy.fail(st, 'loop body is not `<zeros array>[i] = …`')
+    kind, shape, _ = sy.allocs[base[1]]
+    if kind != 'zeros' or ident(shape, pyname, '') != ('call', 'len', (('param', 'periods'),), ()):
+        sy.fail(st, 'the written array is not np.zeros(len(periods))')
+    v = sy.ev(st.value)
+    # max(abs(single_elastic_response(motion, step, periods[i], xi)))
+    if not (v[0] == 'call' and v[1] == 'max' and len(v[2]) == 1 and not v[3] and v[2][0][0] == 'call' and v[2][0][1] == 'abs'
+            and len(v[2][0][2]) == 1 and v[2][0][2][0][0] == 'call' and v[2][0][2][0][1] == SER):
+        sy.fail(st, f'loop body is not max(abs({SER}(…)))')
+    cargs = bind_call(v[2][0][2][0], callee, pyname, st.lineno)
+    XI = ('sub', ('param', 'xis'), (('i', ('lit', '0')),))
+    if cargs != (('param', 'motion'), ('param', 'step'), ('sub', ('param', 'periods'), (('i', ('loopvar', iv)),)), XI):
+        sy.fail(st, f'arguments of {SER}')
+    for st2 in sts[loops[0] + 1:-1]:
+        if not isinstance(st2, ast.Assign):
+            sy.fail(st2, 'statement ' + type(st2).__name__)
+        sy.assign(st2)
+    if any(w[0] == base[1] for w in sy.writes):
+        sy.fail(loop, 'the spectrum array is written outside the loop')
+    rt = sy.ev(sts[-1].value)
+    if rt[0] != 'list' or len(rt[1]) != 3:
+        sy.fail(sts[-1], 'return is not a triple')
+    # `xis[0]` must be evaluated before the loop
+    pre = [sy_ for sy_ in sts[:loops[0]] if isinstance(sy_, ast.Assign) and sy.ev(sy_.value) == XI]
+    if not pre:
+        sy.fail(loop, '`xis[0]` is not read before the loop')
+    pr = Pr(pyname, {('param', 'periods'): ('arr', 'periods'), base: ('arr', 's_d')}, None)
+    comps = []
+    for x in rt[1]:
+        k, p = pr.tr(x)
+        if k != 'arr':
+            sy.fail(sts[-1], 'returned value is not a 1-D array')
+        comps.append(strip_outer(pr.text((k, p))))
+    pi = "(pi : α) " if 'pi' in pr.uses else ""
+    d = ["\n".join([f"/-- one pass of the loop of `{pyname}`: `max(abs({SER}(motion, step, T, xi)))` for `T = periods[i]` -/",
+                    "def slowSd (ser : List α → α → α → α → List α) (motion : List α) (step xi T : α) : Except ErrKind α :=",
+                    "  match Np.maxL? (Np.absL (ser motion step T xi)) with", "  | none => .error .ValueError", "  | some m => .ok m"]),
+         "\n".join([f"/-- `{pyname}(motion, step, periods, xis)`: `xis[0]` (`IndexError`), then period by period\n"
+                    f"`s_d[i] = max(abs({SER}(motion, step, periods[i], xi)))` (`ValueError` of Python `max` for an empty record), then the\n"
+                    f"pseudo relations on whole arrays; `ser` is `{SER}` (arguments in the order of its signature); domain: array-like `periods` -/",
+                    f"def slowResponseSpectra (ser : List α → α → α → α → List α) {pi}(motion : List α) (step : α) (periods xis : List α) :",
+                    "    Except ErrKind (List α × List α × List α) :=",
+                    "  match NpS.pyAt xis 0 with", "  | .error e => .error e", "  | .ok xi =>",
+                    "  match periods.mapM (slowSd ser motion step xi) with",
+                    "  | .error e => .error e", "  | .ok s_d =>",
+                    "  .ok (" + ",\n       ".join(comps) + ")"])]
+    return d, pr
+
+
+def gen_spec_slow(repo, ns):
+    src = open(os.path.join(repo, 'eqsig', 'sdof.py')).read()
+    mod = ast.parse(src)
+    d1, p1 = ser_fn(src, mod)
+    d2, p2 = slow_fn(src, mod)
+    p1.ints |= p2.ints
+    p1.sci = p1.sci or p2.sci
+    var = "variable {α : Type} [LT α] [DecidableLT α] [Neg α] [Add α] [Sub α] [Mul α] [Div α] [NatCast α]\n  " + classes(p1, (0,))
+    return {"SpecSlow.lean": file_text(ns, "SpecSlow", "eqsig/sdof.py (single_elastic_response, slow_response_spectra)", var, [], d1 + d2)}
+
+
+TARGETS = [gen_spec_energy, gen_spec_object, gen_spec_im, gen_spec_slow]
